@@ -111,7 +111,12 @@ Definition judge_case (t : tok) : Z :=
     if converged ds
        && multiset_eq ds (map dec_obs (as_list obs))
        && Bool.eqb (has_error ds) (negb (failed =? 0))
-    then rule_mask ds else -1
+    then rule_mask ds
+    else if converged ds && has_error ds && (failed =? 0)
+    then -2   (* by c18_fails_iff_breaking the pair is Breaking, the auditor passed it: a missed breaking change *)
+    else if converged ds && negb (has_error ds) && negb (failed =? 0)
+    then -3   (* the pair is not Breaking, the auditor failed it: a false alarm *)
+    else -1
   | _ => -1
   end.
 
